@@ -1,7 +1,7 @@
 """C16 — lock-free ring buffer: bounded, exactly-once, never overwrites an unread slot (structural part)."""
 from core import strip, is_field, order_ge, key_str
 from facts import AnalysisBroken
-from rules import (through_local, nodeset, ev, Unevaluable, atom_from, reach, atomic_ops, ret_const, forced_edges)
+from rules import (field_load, through_local, nodeset, ev, Unevaluable, atom_from, reach, atomic_ops, ret_const, forced_edges)
 
 EXPLANATION = (
     "Decides the claim/publish skeleton of lockfree_ring_buffer.h (and the same skeleton in the bounded channel, see C11): "
@@ -16,7 +16,7 @@ R = "lockfree_ring_buffer"
 
 
 def fld_load(field, rec=R):
-    return lambda n: (n.k == "ImplicitCastExpr" and n.ck == "LValueToRValue" and strip(n).k == "MemberExpr" and strip(n).field == field and strip(n).rec == rec)
+    return field_load(field, rec)
 
 
 def slot_load(n):
